@@ -37,8 +37,8 @@ func ScenarioNames() []string {
 // pick draws from [0,n) on the given stream.
 func pick(stream string, n int) int { return rt.Choose(stream, n) }
 
-// chance returns true with probability num/den.
-func chance(stream string, num, den int) bool { return rt.Choose(stream, den) < num }
+// chance returns true with probability num/den; the replay default (0) is false.
+func chance(stream string, num, den int) bool { return rt.Choose(stream, den) >= den-num }
 
 // oneOf picks one of the values; index 0 is the "simplest".
 func oneOf[T any](stream string, vals ...T) T { return vals[rt.Choose(stream, len(vals))] }
@@ -60,10 +60,12 @@ func weighted(stream string, w ...int) int {
 }
 
 // schedCfg draws the scheduler knobs of a run (swarm style).
+// It runs in Setup, before the simulation is installed, so it draws from the
+// run's tape directly.
 func schedCfg(s *rt.Sim, allowStall bool) {
-	s.Cfg.SwitchDen = oneOf("cfg", 1, 2, 4, 16)
+	s.Cfg.SwitchDen = []int{1, 2, 4, 16}[s.Tape.Choose("cfg", 4)]
 	if allowStall {
-		s.Cfg.StallPermille = oneOf("cfg", 0, 0, 2, 10, 40)
+		s.Cfg.StallPermille = []int{0, 0, 2, 10, 40}[s.Tape.Choose("cfg", 5)]
 	}
 }
 
